@@ -68,6 +68,8 @@ def acase(c):
         lst = lambda xs: "[" + "; ".join(xs) + "]"  # noqa: E731
         return (f"CReparam {'true' if c['uniform'] else 'false'} {lst(mus)} {lst(sgs)} {lst([qc(e) for e in c['eps']])} "
                 f"{lst([qc(w) for w in c['ws']])} {qq(c['p'])} {qq(c['t'])}")
+    if c["kind"] == "consistency":
+        return f"CFlagA {'true' if c['ok'] else 'false'}"
     if c["kind"] == "canon":
         return f"CCanon {n(c['kin'])} {n(c['kout'])}"
     ok = c.get("ok_jvp") and c.get("ok_grad") and c.get("ok_est") and c.get("ok_jit")
@@ -116,13 +118,16 @@ def run(ctx):
         hist = {"estimators": Counter(s["est"] for c in cases if c["kind"] == "adev" for s in c["prog"]["sites"]),
                 "sites": Counter(len(c["prog"]["sites"]) for c in cases if c["kind"] == "adev"),
                 "reparam": Counter(("uniform" if c["uniform"] else "normal") + f":L{c['L']}:mu{int(c['mu_vec'])}sg{int(c['sg_vec'])}" for c in cases if c["kind"] == "reparam"),
+                "consistency": Counter(c["prim"] for c in cases if c["kind"] == "consistency"),
+                "consistency_min_pvalues": sorted(c["pvalue"] for c in cases if c["kind"] == "consistency" and "pvalue" in c)[:4],
                 "errors": Counter(c.get("err", "")[:70] for c in cases if "err" in c)}
         rule = ("random expectation programs of 1-3 flip sites (enumeration, parallel enumeration, REINFORCE, measure-valued derivative; theta-dependent "
                 "probabilities, optionally depending on the previous outcome; leaf values with theta terms and a cross term); every outcome vector of the "
                 "sampled sites is scripted; per-outcome (primal, tangent) compared with the model's estimator, their probability-weighted mean with the exact "
                 "dual expectation; enumeration-only programs also under jit(seed(.)), grad_estimate and estimate; plus normal_reparam / uniform_reparam sites with scalar or "
                 "batched location and scale, scripted noise, followed by a lane-coupling continuation: primal and tangent compared with the pathwise dual; "
-                "non-trivial = distinct flip program with >=2 sites or batched reparameterised site")
+                "plus sampler/scorer consistency of every sampled primitive under seed (3000 vectorised draws, goodness of fit against the density the primitive is "
+                "scored with; fails below p = 1e-6); non-trivial = distinct flip program with >=2 sites or batched reparameterised site")
     else:
         nt = len({c.get("name", str(c.get("kin"))) for c in cases if "err" not in c})
         hist = {"programs": Counter(c.get("name", "canon") for c in cases),
